@@ -24,6 +24,8 @@
 (*                    switch case, landingpad clause, operand bundle);     *)
 (*   SwapSlice        inst.Args = newSliceOfSameLength: all elements of a  *)
 (*                    []value.Value group move to fresh cells;             *)
+(*   SetPresent / SetAbsent  an optional operand (ret value, alloca count,  *)
+(*                    unwind target) is assigned / set to nil;             *)
 (*   AppendRep / RemoveRep  one repetition of a repeated group is appended /     *)
 (*                    removed (the configuration changes).                 *)
 (*                                                                         *)
@@ -34,7 +36,8 @@
 (* inputs not exposed, "cache-succs": Succs() answers from its first call) *)
 (* or plausible optimisations ("cache-ops": Operands() reuses its slot     *)
 (* list while the length is unchanged, "dedup-succs": Succs() lists a      *)
-(* repeated target once).  TLC: every property holds for Dev = {}; each    *)
+(* repeated target once, "sticky-succs": Succs() keeps its last answer     *)
+(* when no target is left).  TLC: every property holds for Dev = {}; each    *)
 (* singleton violates the property named in OperandsDev_*.cfg (run as      *)
 (* vacuity guards in every tier).                                          *)
 (*                                                                         *)
@@ -109,7 +112,8 @@ Call == stage = "placed" /\ steps < MaxCalls /\ steps' = steps + 1 /\ UNCHANGED 
 
 QuerySuccs ==
   /\ Call /\ E.cat = "term"
-  /\ out' = IF "cache-succs" \in Dev /\ cacheS.set THEN cacheS.v
+  /\ out' = IF "sticky-succs" \in Dev /\ c.succs = <<>> THEN out     \* nothing assigned when there is no target
+            ELSE IF "cache-succs" \in Dev /\ cacheS.set THEN cacheS.v
             ELSE IF "dedup-succs" \in Dev THEN Dedup(Targets) ELSE Tup(Targets)
   /\ cacheS' = IF cacheS.set THEN cacheS ELSE [set |-> TRUE, v |-> Tup(Targets)]
   /\ last' = [op |-> "succs", slot |-> 0]
@@ -165,26 +169,32 @@ SwapSlice ==
 
 \* Append / Remove one repetition of group gi: the configuration changes
 Start(gi) == LET before == {x \in 1..N : GroupOf(x) < gi} IN Cardinality(before)
-Resize(gi, d) ==
+Resize(gi, d, kinds) ==
   LET g == E.groups[gi]
       m == Len(g.mem)
       cfg2 == [c.cfg EXCEPT !.cnt = Tup([x \in 1..Len(c.cfg.cnt) |-> IF x = gi THEN c.cfg.cnt[x] + d ELSE c.cfg.cnt[x]])]
       c2 == MkCase(E, c.fam, c.cls, cfg2, <<>>, c.attrs, TRUE, c.wrap)
       cut == Start(gi) + c.cfg.cnt[gi] * m          \* operands up to the end of the group
-  IN /\ g.ar \in {"many", "many1"} /\ c.cfg.cnt[gi] + d >= g.min /\ c.cfg.cnt[gi] + d <= MaxOf(E, g, c.cls)
+  IN /\ g.ar \in kinds /\ c.cfg.cnt[gi] + d >= g.min /\ c.cfg.cnt[gi] + d <= MaxOf(E, g, c.cls)
      /\ c' = c2
      /\ IF d = 1
         THEN /\ addr' = Tup(SubSeq(addr, 1, cut) \o [x \in 1..m |-> Len(mem) + x] \o SubSeq(addr, cut + 1, N))
              /\ mem' = Tup(mem \o [x \in 1..m |-> "n"])
         ELSE /\ addr' = SubSeq(addr, 1, cut - m) \o SubSeq(addr, cut + 1, N)
              /\ mem' = mem
-AppendRep == /\ Call /\ \E gi \in 1..Len(E.groups) : Resize(gi, 1) /\ last' = [op |-> "append", slot |-> gi]
+Lists == {"many", "many1"}
+AppendRep == /\ Call /\ \E gi \in 1..Len(E.groups) : Resize(gi, 1, Lists) /\ last' = [op |-> "append", slot |-> gi]
           /\ UNCHANGED <<cacheS, cacheO, out>>
-RemoveRep == /\ Call /\ \E gi \in 1..Len(E.groups) : Resize(gi, -1) /\ last' = [op |-> "remove", slot |-> gi]
+RemoveRep == /\ Call /\ \E gi \in 1..Len(E.groups) : Resize(gi, -1, Lists) /\ last' = [op |-> "remove", slot |-> gi]
           /\ UNCHANGED <<cacheS, cacheO, out>>
+\* an optional operand (ret value, alloca count, unwind target of cleanupret / catchswitch) is set or cleared
+SetPresent == /\ Call /\ \E gi \in 1..Len(E.groups) : Resize(gi, 1, {"opt"}) /\ last' = [op |-> "set-present", slot |-> gi]
+           /\ UNCHANGED <<cacheS, cacheO, out>>
+SetAbsent == /\ Call /\ \E gi \in 1..Len(E.groups) : Resize(gi, -1, {"opt"}) /\ last' = [op |-> "set-absent", slot |-> gi]
+           /\ UNCHANGED <<cacheS, cacheO, out>>
 
 Next == PickKind \/ PickCase \/ Place \/ QuerySuccs \/ QueryOperands \/ ReplaceOperand \/ ReplaceAllUses
-        \/ DirectAssign \/ ReplaceElem \/ SwapSlice \/ AppendRep \/ RemoveRep
+        \/ DirectAssign \/ ReplaceElem \/ SwapSlice \/ AppendRep \/ RemoveRep \/ SetPresent \/ SetAbsent
 Spec == Init /\ [][Next]_vars
 
 ----------------------------------------------------------------------------
